@@ -27,7 +27,7 @@ NoStr == [app |-> "", cmt |-> "", hw |-> "", os |-> ""]
 Bases == <<
   \* 1: pcapng with every block kind and every option the writer can produce
   [fmt |-> "ng", mixed |-> FALSE, shb |-> [app |-> "verif", cmt |-> "abc", hw |-> "", os |-> "a"],
-   items |-> <<Idb0(1, 65535, "eth0", "c", "", "tcp", "", 0),
+   items |-> <<Idb0(1, 4096, "eth0", "c", "", "tcp", "", 0),
                Idb0(1, 0, "", "", "abcde", "", "linux", 5),
                Epb(0, 5, 5, <<"abc">>, 65, <<4>>, -1, -1, -1, <<>>),
                [t |-> "dsb", n |-> 5],
@@ -44,7 +44,7 @@ Bases == <<
    items |-> <<Idb0(1, 17, "a", "", "", "", "", 0), Epb(0, 3, 3, <<>>, -1, <<>>, -1, -1, -1, <<>>), Idb0(113, 1500, "", "", "", "x", "", 0),
                Epb(1, 2, 2, <<"abcd">>, -1, <<>>, -1, -1, -1, <<>>), Epb(0, 4, 4, <<>>, 2, <<>>, -1, -1, -1, <<>>)>>],
   \* 4, 5: classic pcap
-  [fmt |-> "pcap", nano |-> FALSE, snap |-> 65535, link |-> 1,
+  [fmt |-> "pcap", nano |-> FALSE, snap |-> 4096, link |-> 1,
    items |-> <<[t |-> "pkt", cap |-> 5, len |-> 5, s |-> 1700000000, ns |-> 1000], [t |-> "pkt", cap |-> 0, len |-> 9, s |-> 1, ns |-> 0],
                [t |-> "pkt", cap |-> 17, len |-> 1017, s |-> 2, ns |-> 999999000]>>],
   [fmt |-> "pcap", nano |-> TRUE, snap |-> 17, link |-> 113,
@@ -108,17 +108,17 @@ IdealEvents(B, off) ==
   IN <<[op |-> "case", present |-> FileLenB(B)],
        [op |-> "mode", rd |-> "copy", snapkb |-> 64,
         groups |-> <<[shapes |-> <<shape("whole"), shape("one"), shape("chk"), shape("inj")>>, calls |-> calls(k), end |-> "other",
-                      fired |-> FALSE, makb |-> 70, site |-> ""],
-                     [shapes |-> <<shape("inj")>>, calls |-> calls(IF k > 0 THEN k - 1 ELSE 0), end |-> "inj", fired |-> TRUE, makb |-> 6, site |-> ""],
-                     [shapes |-> <<shape("gz"), shape("gzone")>>, calls |-> calls(k), end |-> "other", fired |-> FALSE, makb |-> 120, site |-> ""]>>]>>
+                      fired |-> FALSE, makb |-> 70, runkb |-> 90, site |-> ""],
+                     [shapes |-> <<shape("inj")>>, calls |-> calls(IF k > 0 THEN k - 1 ELSE 0), end |-> "inj", fired |-> TRUE, makb |-> 6, runkb |-> 0, site |-> ""],
+                     [shapes |-> <<shape("gz"), shape("gzone")>>, calls |-> calls(k), end |-> "other", fired |-> FALSE, makb |-> 120, runkb |-> 300, site |-> ""]>>]>>
 RECURSIVE JudgeAll(_, _, _)
 JudgeAll(st, evs, i) == IF i > Len(evs) THEN "ok"
                         ELSE LET r == JudgeR(st, evs[i]) IN IF r[1] = "ok" THEN JudgeAll(r[2], evs, i + 1) ELSE r[1]
 PropAcceptsIdeal == JudgeAll(NewCase, IdealEvents(nblk, fd.off), 1) = "ok"
 \* and the envelope is not vacuous: a reader whose result depends on the chunking is rejected
 PropRejectsChunkDependent ==
-  LET g1 == [shapes |-> <<[k |-> "whole", n |-> 1]>>, calls |-> <<>>, end |-> "eof", fired |-> FALSE, makb |-> 1, site |-> ""]
-      g2 == [shapes |-> <<[k |-> "one", n |-> 1]>>, calls |-> <<>>, end |-> "ueof", fired |-> FALSE, makb |-> 1, site |-> ""]
+  LET g1 == [shapes |-> <<[k |-> "whole", n |-> 1]>>, calls |-> <<>>, end |-> "eof", fired |-> FALSE, makb |-> 1, runkb |-> 0, site |-> ""]
+      g2 == [shapes |-> <<[k |-> "one", n |-> 1]>>, calls |-> <<>>, end |-> "ueof", fired |-> FALSE, makb |-> 1, runkb |-> 0, site |-> ""]
   IN JudgeR([present |-> 100, open |-> TRUE], [op |-> "mode", rd |-> "copy", snapkb |-> 0, groups |-> <<g1, g2>>])[1] = "result-depends-on-chunking"
 
 Export ==
